@@ -202,7 +202,13 @@ void runBasic(Ctx &ctx, const Case &c) {
     Auth::Basic::User::Cache()->reset(); // no credentials carried from one case to the next
     static const char *const prefixes[] = {"Basic ", "Basic  ", "basic ", "BASIC\t", "Basic \t ", "x "};
     const std::string &clear = c.in;
-    const std::string header = std::string(prefixes[c.param % 6]) + refEncode(clear) + ((c.param / 6) % 2 ? "\n" : "");
+    // token variants: 0 = well-formed; 1 = all '=' padding dropped; 2 = one of two '=' dropped (both malformed, RFC 4648 3.2/4)
+    std::string token = refEncode(clear);
+    int variant = (int)((c.param / 12) % 3);
+    if (variant == 1 && !token.empty() && token.back() == '=') token.resize(token.find_last_not_of('=') + 1);
+    else if (variant == 2 && token.size() >= 2 && token.compare(token.size() - 2, 2, "==") == 0) token.resize(token.size() - 1);
+    else variant = 0;
+    const std::string header = std::string(prefixes[c.param % 6]) + token + ((c.param / 6) % 2 ? "\n" : "");
 
     std::string gotUser, gotPass;
     bool haveUser = false, havePass = false;
@@ -229,6 +235,15 @@ void runBasic(Ctx &ctx, const Case &c) {
     // grey zones (DESIGN 7.1 and documented Squid policy): NUL inside credentials (c-string API), CR/LF in
     // credentials (deliberately refused), no colon / empty password (refused with a deny message)
     if (hasNul || hasCrLf || colon == std::string::npos || colon + 1 == clear.size()) { ctx.grey(); return; }
+    if (variant) {
+        // all symbols are valid but the token's length/padding is not: malformed base64 must not yield credentials
+        ctx.feature(feat + ":malformed" + std::to_string(variant));
+        ctx.count("basic_malformed_tokens");
+        if (haveUser && havePass)
+            ctx.violation(std::string("basic:accepted-malformed-token:") + (variant == 1 ? "padding-missing" : "padding-short"),
+                          "header " + vh::show(header) + " (padding of the well-formed token removed) was decoded to user " + vh::show(gotUser) + " password " + vh::show(gotPass));
+        return;
+    }
     ctx.feature(feat);
     const std::string expUser = clear.substr(0, colon), expPass = clear.substr(colon + 1);
     if (!haveUser || !havePass) { ctx.violation("basic:credentials-not-decoded", "header " + vh::show(header) + " gave " + (haveUser ? "user" : "no user") + "/" + (havePass ? "password" : "no password")); return; }
@@ -308,7 +323,7 @@ std::string gen(Rng &r) {
         std::string clear = user + (r.chance(1, 15) ? "" : ":") + pass;
         if (r.chance(1, 40)) clear.insert(r.below(clear.size() + 1), 1, '\0');
         if (r.chance(1, 30)) clear = r.bytes(r.below(40));
-        return enc('B', r.below(12), clear);
+        return enc('B', r.below(12) + 12 * (r.chance(1, 4) ? 1 + r.below(2) : 0), clear);
     }
     }
 }
